@@ -11,12 +11,12 @@ PARAMS = [(proto, tr) for proto in ('json', 'xml', 'soap11', 'http-json', 'json-
                     'spyne.server.wsgi.WsgiApplication.handle_error', 'spyne.server.wsgi.WsgiApplication.__finalize',
                     'spyne.server._base.ServerBase.finalize_context', 'spyne.context.MethodContext.close'],
          bounds={'schedule': 'as C14 (8 request kinds x 9 failing stages x Fault/non-Fault x listener level), '
-                             'chunked on/off, 4 protocol pairs'})
+                             'chunked on/off, 5 protocol pairs; user code setting a response header to one value, a list or a tuple of values'})
 def wsgi_protocol(sx, p):
     """start_response once, before the body, str status/headers, bytes chunks, Content-Length = body size,
     context closed exactly once and not before the body has been handed over"""
     proto, transport = p
-    sched, rec = P.run_scenario(sx, proto, transport)
+    sched, rec = P.run_scenario(sx, proto, transport, user_headers=True)
     if sched['stage'] == 'unserializable' and P.out_of(proto) in ('json', 'jsonp'):
         sx.outside('lazily serialising protocols fail while the body is iterated; outside the stated schedule')
     problems = O.check_wsgi(sched, rec, allow_eager_close=True)
